@@ -44,11 +44,15 @@ TRUSTED = ['model TileSvc.v hand-written from service/tile.py, service/wmts.py, 
            'float formatting of ScaleDenominator: the client resolution recovered from the document must match a level resolution '
            'within 1e-9 relative and is then snapped to it',
            'skip_odd (res[0]/res[1] == math.sqrt(2)) is an input of the model, taken from the configuration (res_factor: sqrt2)']
+SCHEDULES = ('two-request schedules (A parsed, B parsed, A handled, B handled; threads gated at Server.parse_request) on pairs of advertised '
+             'TMS / tiles / KML addresses with different grid path elements: same oracle and `served` table as sequential requests, plus '
+             'the `schedule` correspondence with run_schedule (theorem request_isolation: all schedules)')
 ASSUMPTIONS = ['resolutions positive (strictly decreasing for same_ground_tile_same_internal), bbox non-degenerate, tile size positive',
                'tms_address_exact: layer extent = grid bbox and (origin ll or tiled area bottom-aligned at that level) - excludes exactly finding F8',
                'kml_href_roundtrip: on sqrt2 grids for even internal levels (the only ones KML links to; kml_document_links_exact needs no hypothesis); W1/K1/K2 are repaired',
                'origin_override_exact / kml_address_exact: the effective origin is the grid origin or the level is bottom-aligned (misalign = 0)',
-               'meter_per_unit positive (wmts scale denominator)']
+               'meter_per_unit positive (wmts scale denominator)',
+               'request_isolation: the handled request was parsed before (any interleaving otherwise)']
 EXPLANATION = ('address -> internal coordinate and capabilities -> client rectangle proved equal over Z for all grids; real app '
                'compared on exact and realistic grid configurations')
 HERE = os.path.dirname(os.path.dirname(os.path.dirname(os.path.abspath(__file__))))
